@@ -444,7 +444,7 @@ class C04(Check):
     level = "exploration"
     rule = (
         "seeded event scripts over {silence, conn_error@write/read, empty read, busy, pending, mismatch, malformed, "
-        "neg/pos final, late replies} x delay classes {0, small, T-d, T+d, 0.4s, 0.6s} x max_retry 0..3 (client / per request) "
+        "negative response with a reserved response code, neg/pos final, late replies} x delay classes {0, small, T-d, T+d, 0.4s, 0.6s} x max_retry 0..3 (client / per request; 20 % of the clients re-configured by attribute assignment after construction; requests with and without a config object) "
         "x timeouts x reconnect outcomes x request kinds; strata with 118..121 pendings and silence after a pending. "
         "A run is non-trivial if at least one fault event (anything but a single in-time final reply) was consumed; "
         "distinct = distinct sequence of (event class, phase) pairs seen by the reference state machine."
